@@ -127,3 +127,55 @@ func (s *vScript) GetSignedValue(n int) int32 {
 	return v
 }
 func (s *vScript) EOF() bool { return false }
+
+// VerifH_C04_FilterStrengths: precomputeFilterStrengths derives, for every filter level, sharpness,
+// reference/mode delta and per-segment strength (absolute or relative), the limits of the reference
+// decoder (RFC 6386 section 15.2: interior limit shift by sharpness, 9-sharpness cap, hev thresholds).
+func VerifH_C04_FilterStrengths(useSegment int) {
+	dec := &Decoder{filterType: 2}
+	h := &dec.filterHdr
+	h.Level = int(verifapi.U8("level") & 63)
+	h.Sharpness = int(verifapi.U8("sharpness") & 7)
+	h.UseLFDelta = verifapi.Bool("use_delta")
+	h.RefLFDelta[0] = int(verifapi.I8("ref_delta"))
+	h.ModeLFDelta[0] = int(verifapi.I8("mode_delta"))
+	verifapi.Assume(h.RefLFDelta[0] >= -63 && h.RefLFDelta[0] <= 63 && h.ModeLFDelta[0] >= -63 && h.ModeLFDelta[0] <= 63)
+	dec.segHdr.UseSegment = useSegment == 1
+	dec.segHdr.AbsoluteDelta = verifapi.Bool("absolute")
+	var seg [4]int8
+	for i := range seg {
+		seg[i] = verifapi.I8("seg_strength")
+		verifapi.Assume(seg[i] >= -63 && seg[i] <= 63)
+		dec.segHdr.FilterStrength[i] = seg[i]
+	}
+	// the reference decoder accumulates the level in int8: keep every partial sum within int8 (its own
+	// arithmetic wraps beyond that; the decoder under test uses int and clamps to 63 as RFC 6386 says)
+	for i := range seg {
+		base := h.Level
+		if dec.segHdr.UseSegment {
+			base = int(seg[i])
+			if !dec.segHdr.AbsoluteDelta {
+				base += h.Level
+			}
+		}
+		verifapi.Assume(base >= -128 && base <= 127)
+		verifapi.Assume(base+h.RefLFDelta[0] >= -128 && base+h.RefLFDelta[0] <= 127)
+		verifapi.Assume(base+h.RefLFDelta[0]+h.ModeLFDelta[0] >= -128 && base+h.RefLFDelta[0]+h.ModeLFDelta[0] <= 127)
+	}
+	dec.precomputeFilterStrengths()
+	want := ref.VerifFilterParams(int8(h.Level), uint8(h.Sharpness), h.UseLFDelta, int8(h.RefLFDelta[0]), int8(h.ModeLFDelta[0]),
+		dec.segHdr.UseSegment, !dec.segHdr.AbsoluteDelta, seg)
+	for s := 0; s < NumMBSegments; s++ {
+		for j := 0; j <= 1; j++ {
+			g := dec.fstrengths[s][j]
+			w := want[s][j]
+			verifapi.Assert(int(g.FLimit) == w[0], "edge limit (2*level+ilevel, 0 = filter off)")
+			if w[0] != 0 {
+				verifapi.Assert(int(g.FILevel) == w[1], "interior limit")
+				verifapi.Assert(int(g.HevThresh) == w[2], "high-edge-variance threshold")
+			}
+			verifapi.Assert(g.FInner == (w[3] == 1), "inner-edge flag")
+		}
+	}
+	verifapi.Cover(true, "compared")
+}
